@@ -115,6 +115,8 @@ impl DoviProcessor {
 
     pub fn read_write_from_io(&mut self, format: &IoFormat) -> Result<()> {
         let chunk_size = 100_000;
+        #[cfg(dovi_tool_verif)]
+        let chunk_size = crate::dovi::verif_chunk_size(chunk_size);
 
         let processor_opts = HevcProcessorOpts {
             parse_nals: true,
